@@ -98,6 +98,23 @@ Definition targetless_handle_write (ops : list cop) : bool :=
                     | OUpdT _ _ n => String.eqb (feed_target n) ""
                     | _ => false end) ops.
 
+(** ... and every later announcement about that leaf (its deletion) carries no
+    target either: the replay keeps, under the handle's target, a leaf that an
+    earlier target-less handle write wrote and the cache has dropped since *)
+Definition targetless_written (ops : list cop) (e : dump_entry) : bool :=
+  existsb (fun o =>
+    match o with
+    | OUpdT _ tgt n =>
+        String.eqb (feed_target n) "" && String.eqb tgt (fst (fst e)) &&
+        existsb (fun u =>
+          match join_prefix_and_path (gp_of_opt (n_prefix n))
+                  (if n_atomic n then empty_gpath else gp_of_opt (u_path u)) with
+          | Ok p => path_eqb p (snd (fst e))
+          | _ => false
+          end) (n_upd n)
+    | _ => false
+    end) ops.
+
 (** targets present after the calls [ops], starting from [names] *)
 Definition present_after (names : list string) (ops : list cop) : list string :=
   fold_left (fun l o => match o with
@@ -139,7 +156,9 @@ Definition origin_written (ops : list cop) (e : dump_entry) : bool :=
     end) ops.
 
 Definition known_class (cfg : config) (names : list string) (before : list cop) (o : cop) (ob : cobs) (r : rmap) : N :=
-  if targetless_handle_write before && existsb (fun e => String.eqb (fst (fst e)) "") r then 5%N
+  if targetless_handle_write before &&
+     (existsb (fun e => String.eqb (fst (fst e)) "") r ||
+      existsb (targetless_written before) (extra_keys r (o_dump ob))) then 5%N
   else if existsb (fun e => name_in (fst (fst e)) (readded names before)) (extra_keys r (o_dump ob)) then 4%N
   else if existsb (origin_written before) (extra_keys r (o_dump ob)) then 3%N
   else 0%N.
